@@ -12,6 +12,8 @@ import (
 	"time"
 )
 
+var smtMu sync.Mutex
+
 type Status int
 
 const (
@@ -126,7 +128,7 @@ func Solve(obls []*Obligation, cfg SolverCfg) []*Result {
 		go func(i int, o *Obligation) {
 			defer wg.Done()
 			defer func() { <-sem }()
-			results[i] = solveOne(o, i, cfg)
+			results[i] = solveGuarded(o, i, cfg)
 		}(i, o)
 	}
 	wg.Wait()
@@ -140,7 +142,10 @@ func solveOne(o *Obligation, idx int, cfg SolverCfg) *Result {
 		r.Solver = "syntactic"
 		return r
 	}
+	// query text generation touches shared tables of the World: serialise it
+	smtMu.Lock()
 	smt := o.SMT()
+	smtMu.Unlock()
 	if len(smt) > 1<<20 {
 		r.Status = ToolError
 		r.Output = fmt.Sprintf("VC size %d exceeds cap", len(smt))
@@ -196,7 +201,12 @@ func solveOne(o *Obligation, idx int, cfg SolverCfg) *Result {
 					if sj == si || (si >= 3 && sj == 0) {
 						continue
 					}
-					a2, _, s2 := runSolver(other, cfg.TimeoutSec, file)
+					// the cross-check is a second opinion, not the proof: short timeout
+					ct := cfg.TimeoutSec
+					if ct > 5 {
+						ct = 5
+					}
+					a2, _, s2 := runSolver(other, ct, file)
 					r.Seconds += s2
 					if a2 == "unsat" {
 						r.Agreed = append(r.Agreed, other.name)
@@ -248,4 +258,24 @@ func firstLines(s string, n int) string {
 		lines = lines[:n]
 	}
 	return strings.Join(lines, " ")
+}
+
+// solveGuarded runs solveOne; a panic inside it (resource exhaustion while
+// spawning solvers, for instance) is retried twice before it becomes a tool error.
+func solveGuarded(o *Obligation, idx int, cfg SolverCfg) (res *Result) {
+	for attempt := 0; ; attempt++ {
+		var perr any
+		func() {
+			defer func() { perr = recover() }()
+			res = solveOne(o, idx, cfg)
+		}()
+		if perr == nil {
+			return res
+		}
+		fmt.Fprintf(os.Stderr, "govc: internal error while solving %s (attempt %d): %v\n", o.Name, attempt+1, perr)
+		if attempt >= 2 {
+			return &Result{O: o, Status: ToolError, Output: fmt.Sprintf("internal error: %v", perr)}
+		}
+		time.Sleep(time.Duration(attempt+1) * time.Second)
+	}
 }
